@@ -1515,7 +1515,9 @@ impl<'a> Body<'a> {
         let Expr::Range(r) = &*fl.expr else { return None };
         let end_e = r.end.as_ref()?;
         let s = end_e.to_token_stream().to_string();
-        if !(s.contains("self") || s.contains('.') || s.contains('(')) {
+        // a loop with a wildcard variable is always given a named counter and a hoisted end (whatever the end expression looks like),
+        // so that its shape does not depend on whether the bound is written inline or bound to a local first
+        if !(s.contains("self") || s.contains('.') || s.contains('(')) && !matches!(&*fl.pat, Pat::Wild(_)) {
             return None;
         }
         if s.starts_with("__end") {
